@@ -273,6 +273,16 @@ func (e *emitter) run(fn *ssa.Function, mode string, buf ssa.Value, start ssa.Va
 			if j < 0 || j >= len(callee.Params) {
 				continue
 			}
+			// dst = appendSanitised(dst, payload): one safe byte per element, summarised
+			if mode == "slice" {
+				if si, isSan, _ := appendSanitiser(callee, j); isSan && si < len(cc.Args) {
+					if f, ok := canonField(cc.Args[si]); ok {
+						st.toks = append(st.toks, mk([]tok{{K: "San", S: f}})...)
+						st.cur = call
+						continue
+					}
+				}
+			}
 			if depth >= 3 {
 				st.toks = append(st.toks, mk([]tok{{K: "Unknown", S: "helper nesting deeper than 3: " + fnName(callee)}})...)
 				continue
